@@ -266,6 +266,16 @@ class SQLiteAlterTableSQLResult(AlterTableSQLResult):
                                     new_db_table=table_name).to_sql()
 
         # Step 5: Restore any indexes.
+        #
+        # Any index explicitly requested by another operation batched into
+        # this rebuild must be reflected in the fields we're restoring
+        # indexes for. Those operations worked with their own copy of the
+        # field.
+        for field in added_field_db_indexes:
+            for new_field in new_fields:
+                if new_field.column == field.column:
+                    new_field.db_index = True
+
         class _Model(object):
             class _meta(object):
                 db_table = table_name
